@@ -275,6 +275,16 @@ def _clean_case(args):
                 ds.export.hdf5(d / "o.rtdc", features=ds.features_innate,
                                filtered=True, logs=True, basins=True)
             targets = [d / "o.rtdc"]
+        elif route == "export-subset-basins":
+            # only some features are stored, the rest (fluorescence
+            # included) comes from the source through a basin; also the
+            # compressed copy of that file
+            with dclab.new_dataset(src) as ds:
+                ds.export.hdf5(d / "o.rtdc", features=["deform", "area_um",
+                                                       "image", "mask"],
+                               filtered=False, basins=True)
+            cli.compress(path_in=d / "o.rtdc", path_out=d / "oc.rtdc")
+            targets = [d / "o.rtdc", d / "oc.rtdc"]
         elif route == "export-child":
             with dclab.new_dataset(src) as ds:
                 ds.filter.manual[0] = False
@@ -456,7 +466,8 @@ def _corrupt_case(args):
 
 def run(ctx):
     scratch = ctx.scratch
-    routes = ["writer", "export-hdf5", "export-filtered", "export-child",
+    routes = ["writer", "export-hdf5", "export-filtered",
+              "export-subset-basins", "export-child",
               "export-dict", "compress", "repack", "condense", "join",
               "split"]
     res = par.pmap(_clean_case, [(r, ctx.seed, scratch) for r in routes])
